@@ -52,9 +52,25 @@ def classify_entry(e):
 
 def extract_arrays(f):
     arrays = {}
+
+    def listval(e):
+        """elements of a list-valued expression: a literal, a known array, list(<array>), <array>[:], a + b"""
+        if isinstance(e, ast.List):
+            return list(e.elts)
+        if isinstance(e, ast.Name) and e.id in arrays:
+            return list(arrays[e.id])
+        if isinstance(e, ast.Call) and isinstance(e.func, ast.Name) and e.func.id == 'list' and len(e.args) == 1:
+            return listval(e.args[0])
+        if isinstance(e, ast.Subscript) and isinstance(e.slice, ast.Slice) and e.slice.lower is None and e.slice.upper is None:
+            return listval(e.value)
+        if isinstance(e, ast.BinOp) and isinstance(e.op, ast.Add):
+            a, b = listval(e.left), listval(e.right)
+            return None if a is None or b is None else a + b
+        return None
     for st in iter_nodes(f.node):
-        if isinstance(st, ast.Assign) and len(st.targets) == 1 and isinstance(st.targets[0], ast.Name) and isinstance(st.value, ast.List):
-            arrays[st.targets[0].id] = list(st.value.elts)
+        if isinstance(st, ast.Assign) and len(st.targets) == 1 and isinstance(st.targets[0], ast.Name) and listval(st.value) is not None \
+                and (isinstance(st.value, ast.List) or any(isinstance(x, ast.Name) and x.id in arrays for x in ast.walk(st.value))):
+            arrays[st.targets[0].id] = listval(st.value)
         elif isinstance(st, ast.Expr) and isinstance(st.value, ast.Call) and isinstance(st.value.func, ast.Attribute) \
                 and st.value.func.attr in ('extend', 'append') and isinstance(st.value.func.value, ast.Name):
             name = st.value.func.value.id
@@ -495,15 +511,26 @@ def check_prompt_fn(c, repo):
     sends = [norm(k.args[0]) for n, k in sorted(cfg_nodes_with_call(f, lambda k: callee_last(k) == 'sendline'), key=lambda x: x[0].lineno)]
     c.check(sends[-3:] == ['self.PROMPT_SET_SH', 'self.PROMPT_SET_CSH', 'self.PROMPT_SET_ZSH'], f, None, 'the three syntaxes are tried as sh, csh, zsh',
             witness=str(sends), kind='ast', tag='sup-order')
-    rf = [r for r in returns(f) if is_const(r.ast.value, False)]
-    ok = len(rf) == 1
-    if ok:
-        # reached only when all three waits returned the TIMEOUT index 0
-        tests = [t for t in g.nodes if t.kind == 'test' and compare_parts(t.ast) and isinstance(compare_parts(t.ast)[1], ast.Eq) and is_const(compare_parts(t.ast)[2], 0)]
-        ok = len(tests) == 3 and all(rf[0] in guard_region(g, t, 'true') for t in tests)
-    c.check(ok, f, rf[0].ast if rf else None, 'False only after all three attempts timed out (index 0 = TIMEOUT)', tag='sup-false')
-    rt = [r for r in returns(f) if is_const(r.ast.value, True)]
-    c.check(len(rt) == 1, f, rt[0].ast if rt else None, 'True as soon as one attempt shows the unique prompt', kind='ast', tag='sup-true')
+    rf = set(r for r in returns(f) if is_const(r.ast.value, False))
+    rt = set(r for r in returns(f) if is_const(r.ast.value, True))
+    waits_ = [n for n, k in ks]
+    c.need(all(isinstance(n.ast, ast.Assign) and isinstance(n.ast.targets[0], ast.Name) for n in waits_), 'set_unique_prompt: the index of a wait is not kept in a local')
+    iv = waits_[0].ast.targets[0].id
+    hit = [('0 == %s' % iv, False, {iv})]          # the wait did NOT time out (index 0 = TIMEOUT): the unique prompt was seen
+    miss = [('0 == %s' % iv, True, {iv})]
+    sends_ = set(n for n, k in cfg_nodes_with_call(f, lambda k: callee_last(k) in ('sendline', 'send')))
+    okf = bool(rf) and all(g.dominated_by(r, {w})[0] for r in rf for w in waits_)
+    okt = bool(rt)
+    for w in waits_:
+        rest = set(waits_) - {w}
+        # after a wait that saw the prompt: straight to `return True`, nothing more is sent or awaited, never False
+        if g.path(w, rf | sends_ | rest | {g.exit}, avoid=rt, skip_labels=('exc',), include_start=False, assume=hit) is not None:
+            okt = False
+        # after a wait that timed out: never True before the next attempt
+        if g.path(w, rt, avoid=rest, skip_labels=('exc',), include_start=False, assume=miss) is not None:
+            okf = False
+    c.check(okf, f, None, 'False only after all three attempts timed out (index 0 = TIMEOUT)', kind='path', tag='sup-false')
+    c.check(okt, f, None, 'True as soon as one attempt shows the unique prompt', kind='path', tag='sup-true')
 
 
 MUTANTS = [
